@@ -44,19 +44,21 @@ UNMODELLED = [
     "such cases are classified flag-ambiguous and only the model correspondence is checked for them)",
 ]
 MANIFEST = {
-    "level_text": "Lean theorems about an executable model of unify/_unify_var/_occurs/_unify_args/Substituter, for all terms "
-    "and all acyclic prior substitutions (no size bound): soundness w.r.t. solution semantics (every solution of the result "
-    "solves the prior and equates both sides up to ownership flags; the result extends the prior and stays acyclic; "
-    "full application of the result equates both sides), termination (a fuel exists for every acyclic prior, results are "
-    "fuel-monotone), completeness and most-generality (partial: under the hypothesis that no input is linear, i.e. the flag "
-    "rule is vacuous). Model tied to ty.py/subst.py on every run by same-input correspondence on the real classes "
-    "(quick 5000 unify cases, thorough 400000) with an independent Robinson unifier as property oracle.",
-    "level_note": "Trusted: Lean kernel + propext/Classical.choice/Quot.sound; my statement of solutions/acyclicity; the "
-    "encoder from guppylang objects to model terms; correspondence is sampling. Two defects fixed in /repo (cyclic result from "
-    "an occurs check that ignored the substitution, constants of different type unified); theorems are about the repaired code.",
+    "level_text": "Lean theorems about an executable model of unify/_unify_var/_occurs/_unify_args/Substituter/linear, for all "
+    "terms and all acyclic prior substitutions (no size bound): soundness w.r.t. solution semantics (the result extends the prior, "
+    "stays acyclic, every solution of it solves the prior and equates both sides up to ownership flags; enough Substituter passes "
+    "reach a fixpoint that equates both sides), termination (for every acyclic prior some fuel reaches an outcome and larger fuels "
+    "agree), success implies a unifier exists; completeness, most-generality and the iff for well-sorted inputs (partial: proved "
+    "where the ownership-flag rule cannot fire / for exact unifiers). Model tied to ty.py/subst.py on every run by same-input "
+    "correspondence on the real guppylang classes (quick 5000 unify cases, thorough 400000; exact equality of the returned dict) "
+    "with an independent Robinson unifier as property oracle (unifiable or not, result unifies, result most general).",
+    "level_note": "Trusted: Lean kernel + propext/Classical.choice/Quot.sound; my statement of solutions/acyclicity/well-sortedness; "
+    "the encoder from guppylang objects to model terms; the correspondence is sampling. Two defects fixed in /repo (cyclic result "
+    "from an occurs check that ignored the substitution; constants of different type unified); theorems are about the repaired code. "
+    "Completeness/MGU are `_partial`: the flag rule is evaluated on types as written, see notes/C12.md.",
     "technique": "Lean 4 proof over a hand-written model + differential correspondence with ty.py/subst.py + independent unifier oracle",
     "design_ref": "DESIGN.md §5 C12",
-    "ready": False,
+    "ready": True,
 }
 
 # ----------------------------------------------------------------------------------------------
@@ -118,7 +120,10 @@ class Universe:
             [TypeParam(0, "T", True, True)],
             [ConstParam(0, "n", nat)],
             [TypeParam(0, "T", False, False), ConstParam(1, "n", nat, from_comptime_arg=True)],
+            [TypeParam(0, "T", False, False), TypeParam(1, "U", False, False)],
+            [TypeParam(0, "T", False, False), ConstParam(1, "n", nat)],
         ]
+        self.generic_pools = {1: "t", 3: "c", 5: "tt", 6: "tc"}   # params code -> parameter kinds
         self.ctys = [nat, NumericType(NumericType.Kind.Int), NumericType(NumericType.Kind.Float), B.bool_type()]
         # definition-level copy/drop bits (all-copyable arguments)
         self.dNoCopy, self.dNoDrop = [], []
@@ -301,6 +306,15 @@ def o_vars(a, acc=None):
     return acc
 
 
+def o_cbvars(a, acc=None):
+    acc = [] if acc is None else acc
+    if a[0] == "cbv":
+        acc.append(a[1])
+    for c in kids(a):
+        o_cbvars(c, acc)
+    return acc
+
+
 def o_bvars(a, acc=None):
     acc = [] if acc is None else acc
     if a[0] == "bv":
@@ -310,15 +324,15 @@ def o_bvars(a, acc=None):
     return acc
 
 
-def env_of(terms) -> str:
+def env_of(terms, extra_nocopy=(), extra_nodrop=()) -> str:
     u = U()
     vs, bs = set(), set()
     for t in terms:
         vs.update(o_vars(t))
         bs.update(o_bvars(t))
     tv = sorted(v for v in vs if v % 2 == 0)
-    vnc = [v for v in tv if not VATTR[(v // 2) % len(VATTR)][0]]
-    vnd = [v for v in tv if not VATTR[(v // 2) % len(VATTR)][1]]
+    vnc = [v for v in tv if not VATTR[(v // 2) % len(VATTR)][0]] + list(extra_nocopy)
+    vnd = [v for v in tv if not VATTR[(v // 2) % len(VATTR)][1]] + list(extra_nodrop)
     bnc = [b for b in sorted(bs) if not BATTR[b % len(BATTR)][0]]
     bnd = [b for b in sorted(bs) if not BATTR[b % len(BATTR)][1]]
     f = lambda xs: "(" + " ".join(map(str, xs)) + ")"
@@ -770,6 +784,125 @@ def acyclic(sg):
     return len(d) == len(sg)
 
 
+
+# ---------------------------------------------------------------------------- check_type_against (generic function values)
+FRESH_BASE = 1000
+
+
+def gen_cta(gen: "Gen"):
+    """(exp, act): act = generic function type over bound variables, exp = function type with inference variables,
+    obtained from a common instance so that most cases fit"""
+    r = gen.r
+    u = U()
+    p = r.choice(list(u.generic_pools))
+    kinds = u.generic_pools[p]
+
+    def body_ty(depth):
+        x = r.random()
+        tb = [i for i, k in enumerate(kinds) if k == "t"]
+        cb = [i for i, k in enumerate(kinds) if k == "c"]
+        if tb and x < 0.4:
+            return ("bv", r.choice(tb))
+        if depth <= 0 or x < 0.6:
+            return r.choice([("num", 2), ("num", 1), ("none",), ("op", 0, ()), ("op", 4, ())])
+        c = r.randrange(4)
+        if c == 0:
+            return ("tup", tuple(("ta", body_ty(depth - 1)) for _ in range(r.choice([1, 2]))))
+        if c == 1:
+            return ("op", 1, (("ta", body_ty(depth - 1)),))
+        if c == 2:
+            n = ("ca", ("cbv", r.choice(cb))) if cb and r.random() < 0.7 else ("ca", ("cv", 0, r.choice([1, 2])))
+            return ("op", 2, (("ta", body_ty(depth - 1)), n))
+        return ("fn", (0,), 0, (("ta", body_ty(depth - 1)), ("ta", body_ty(depth - 1))))
+
+    n = r.choice([1, 1, 2, 3])
+    flags = tuple(r.choice([0, 0, 0, 2]) for _ in range(n))
+    for _try in range(6):
+        args = tuple(("ta", body_ty(2)) for _ in range(n + 1))
+        used = set()
+        for a in args:
+            used.update(o_bvars(a))
+            used.update(o_cbvars(a))
+        if len(used) == len(kinds) or r.random() < 0.1:
+            break
+    act = ("fn", flags, p, args)
+    # an instance: params := random closed rank-1 types / constants
+    rho = []
+    for k in kinds:
+        x = gen.ty(1, allow_var=False) if k == "t" else ("cv", 0, r.choice([1, 2, 3]))
+        while has_generic_fn(x):
+            x = gen.ty(1, allow_var=False)
+        rho.append(x)
+
+    def instb(a):
+        if a[0] in ("bv", "cbv"):
+            return rho[a[1]] if a[1] < len(rho) else a
+        ks = kids(a)
+        return with_kids(a, [instb(c) for c in ks]) if ks else a
+
+    inst = ("fn", flags, 0, tuple(instb(a) for a in args))
+    assign: dict = {}
+    exp = gen.generalise(inst, assign, r.choice([0, 1, 2, 3]))
+    if exp[0] != "fn":
+        exp = inst
+    if r.random() < 0.25:
+        exp = gen.mutate(exp)
+    if exp[0] != "fn" or exp[2] != 0 or any(has_generic_fn(x) for x in exp[3]):
+        exp = inst
+    return exp, act, kinds
+
+
+def real_cta(ACT, EXP, kinds):
+    """-> canonical outcome string"""
+    import ast as _ast
+    import itertools
+    from guppylang_internals.checker.expr_checker import check_type_against
+    from guppylang_internals.error import GuppyError
+    from guppylang_internals.tys.var import ExistentialVar
+    ExistentialVar._fresh_id = itertools.count(FRESH_BASE)
+    try:
+        _n, subst, inst = check_type_against(ACT, EXP, _ast.Name(id="f", ctx=_ast.Load()), None)
+    except GuppyError as e:
+        err = e.error
+        if type(err).__name__ != "TypeMismatchError":
+            return "error:" + type(err).__name__
+        names = [q.name for q in ACT.params]
+        for c in err.children:
+            if type(c).__name__ == "CantInferParam":
+                return f"cant-infer {names.index(c.type_var)}"
+            if type(c).__name__ == "CantInstantiateFreeVars":
+                return f"free-vars {names.index(c.param)}"
+        return "mismatch"
+    except Exception as e:  # noqa: BLE001
+        return "exception:" + type(e).__name__
+    try:
+        real_cta.inst = [enc(a)[1] for a in inst]
+        real_cta.subst = [(enc(k)[1], enc(v)) for k, v in subst.items()]
+        return "ok (" + " ".join(sx(a) for a in real_cta.inst) + ") " + sx_subst([(enc(k)[1], enc(v)) for k, v in subst.items()])
+    except Exception as e:  # noqa: BLE001
+        return "exception:encode:" + type(e).__name__
+
+
+def oracle_cta(exp, act, kinds):
+    """literal reading: accepted iff the most general solution of exp ≐ act[params := fresh] exists and gives every
+    parameter a variable-free value.  -> (verdict, theta, unq)"""
+    fresh = [2 * (FRESH_BASE + i) + (1 if k == "c" else 0) for i, k in enumerate(kinds)]
+
+    def instb(a):
+        if a[0] in ("bv", "cbv"):
+            return ("v", fresh[a[1]]) if a[1] < len(fresh) else a
+        ks = kids(a)
+        return with_kids(a, [instb(c) for c in ks]) if ks else a
+
+    unq = ("fn", act[1], 0, tuple(instb(a) for a in act[3]))
+    verdict, th = oracle(exp, unq, [])
+    if verdict != "ok":
+        return ("reject" if verdict == "fail" else "unknown"), th, unq, fresh
+    for f in fresh:
+        if f not in th or o_vars(th[f]):
+            return "reject", th, unq, fresh
+    return "accept", th, unq, fresh
+
 # ---------------------------------------------------------------------------- running the real code
 def real_unify(S, T, SG0):
     """-> ('ok', [(code, term)...]) | ('fail',) | ('exception', name)"""
@@ -816,7 +949,21 @@ def _corpus():
         for fn in sorted(os.listdir(d)):
             if fn.endswith(".json"):
                 for c in json.load(open(os.path.join(d, fn))):
-                    out.append((fn, _tup(c["s"]), _tup(c["t"]), [(_v, _tup(_u)) for _v, _u in c["sigma0"]]))
+                    if "s" not in c:
+                        continue
+                    out.append((fn, _tup(c["s"]), _tup(c["t"]), [(_v, _tup(_u)) for _v, _u in c["sigma0"]], c.get("literal")))
+    return out
+
+
+def _corpus_other(kind):
+    out = []
+    d = os.path.join(vlib.VERIF, "corpus", "c12")
+    if os.path.isdir(d):
+        for fn in sorted(os.listdir(d)):
+            if fn.endswith(".json"):
+                for c in json.load(open(os.path.join(d, fn))):
+                    if kind in c:
+                        out.append((fn, c))
     return out
 
 
@@ -825,8 +972,11 @@ def tie(ctx):
     rng = ctx.rng
     gen = Gen(rng)
     cases = []  # (origin, s, t, sg0)
-    for fn, s, t, sg0 in _corpus():
+    literal = {}
+    for fn, s, t, sg0, lit in _corpus():
         cases.append(("corpus:" + fn, s, t, sg0))
+        if lit is not None:
+            literal[(s, t, tuple(sg0))] = lit
     if ctx.replay_in and "case" in ctx.replay_in.get("replay", {}):
         c = ctx.replay_in["replay"]["case"]
         cases.append(("replay", _tup(c["s"]), _tup(c["t"]), [(v, _tup(u_)) for v, u_ in c["sigma0"]]))
@@ -906,8 +1056,36 @@ def tie(ctx):
         aux.append(("star", f"(star {sx_subst(csg)} {sx(ct)})", r_star, o_star))
         aux.append(("lin", f"(lin {env_of([ct])} {sx(ct)})", lin, o_lin))
 
-    replies = ctx.driver(DRIVER, lines + [a[1] for a in aux])
-    model_u, model_a = replies[: len(lines)], replies[len(lines):]
+    # ---- check_type_against requests (generic function value against an expected function type)
+    cta = []
+    gen3 = Gen(rng, explicit_comptime=False)
+    pending = [(_tup(c["cta"]["exp"]), _tup(c["cta"]["act"]), c["cta"]["kinds"]) for _fn, c in _corpus_other("cta")]
+    if ctx.replay_in and "cta" in ctx.replay_in.get("replay", {}):
+        c = ctx.replay_in["replay"]["cta"]
+        pending.append((_tup(c["exp"]), _tup(c["act"]), c["kinds"]))
+    n_cta = ctx.n(1500, 40000)
+    while pending or n_cta > 0:
+        if pending:
+            exp, act, kinds = pending.pop(0)
+        else:
+            n_cta -= 1
+            exp, act, kinds = gen_cta(gen3)
+        try:
+            EXP, ACT = build(exp), build(act)
+        except InternalGuppyError:
+            continue
+        cexp, cact = enc(EXP), enc(ACT)
+        real_cta.inst = None
+        real = real_cta(ACT, EXP, kinds)
+        rinst = (real_cta.inst, getattr(real_cta, "subst", None))
+        fresh = [2 * (FRESH_BASE + j) + (1 if k == "c" else 0) for j, k in enumerate(kinds)]
+        tfresh = [f for f in fresh if f % 2 == 0]
+        line = f"(cta {env_of([cexp, cact], tfresh, tfresh)} 0 {sx(cexp)} ({' '.join(map(str, fresh))}) {sx(cact)})"
+        cta.append((line, cexp, cact, kinds, real, rinst))
+
+    replies = ctx.driver(DRIVER, lines + [a[1] for a in aux] + [c[0] for c in cta])
+    model_u, model_a = replies[: len(lines)], replies[len(lines): len(lines) + len(aux)]
+    model_c = replies[len(lines) + len(aux):]
 
     for (origin, real_objs, (cs, ct, csg), rr), line, m_ in zip(built, lines, model_u):
         real = show_real(rr)
@@ -930,6 +1108,70 @@ def tie(ctx):
                           {"case": case, "line": line, "real": real, "oracle": verdict, "model": m_, "origin": origin})
         if real != m_:
             ctx.broke(f"correspondence Model/Unify.lean vs ty.py unify on `{line}` (real={real} model={m_})")
+        lit = literal.get((cs, ct, tuple(csg))) if origin.startswith("corpus:") else None
+        if lit is not None:
+            # the property's literal reading of the flag clause (Spec `linEq`): identical after instantiation,
+            # flags compared only where the instantiated input type is linear
+            if "theta" in lit and rr[0] == "fail":
+                thd = {v: _tup(u_) for v, u_ in lit["theta"]}
+                S, T = o_full(thd, cs), o_full(thd, ct)
+                solves = all(o_erase(o_full(thd, ("v", v))) == o_erase(o_full(thd, u_)) for v, u_ in csg)
+                if solves and o_erase(S) == o_erase(T) and flags_agree(S, T, strict=False):
+                    ctx.violation("literal-complete:" + line,
+                                  f"flag rule, literal reading: unify returned None although the assignment {sx_subst(sorted(thd.items()))} "
+                                  f"makes both sides identical up to flags of non-linear inputs: unify({sx(cs)}, {sx(ct)}, {sx_subst(csg)})",
+                                  {"case": case, "line": line, "real": real, "theta": lit["theta"]})
+            if lit.get("sound") and rr[0] == "ok":
+                d = dict(rr[1])
+                S, T = o_full(d, cs), o_full(d, ct)
+                if o_erase(S) == o_erase(T) and not flags_agree(S, T, strict=False):
+                    ctx.violation("literal-sound:" + line,
+                                  f"flag rule, literal reading: the returned substitution leaves a linear input with different flags: "
+                                  f"unify({sx(cs)}, {sx(ct)}, {sx_subst(csg)}) = {real}",
+                                  {"case": case, "line": line, "real": real})
+
+    for (line, cexp, cact, kinds, real, rinst), m_ in zip(cta, model_c):
+        verdict, th, unq, fresh = oracle_cta(cexp, cact, kinds)
+        ctx.count(line, nontrivial=bool(o_vars(cexp)), kind=f"cta:{real.split(' ')[0]}:oracle-{verdict}")
+        bad = None
+        if real.startswith("exception") or real.startswith("error:"):
+            bad = f"check_type_against raised {real}"
+        elif verdict == "accept" and not real.startswith("ok "):
+            bad = "generic function rejected although its most general instantiation is variable-free and fits"
+        elif verdict == "reject" and real.startswith("ok "):
+            bad = "generic function accepted although no variable-free principal instantiation fits"
+        elif verdict == "accept":
+            # the returned instantiation is the principal one and the returned substitution makes exp fit it
+            want = [o_erase(th[f]) for f in fresh]
+            r_inst, r_subst = rinst
+            one = {f: a for f, a in zip(fresh, r_inst)}
+            if [o_erase(a) for a in r_inst] != want:
+                bad = "instantiation differs from the principal one (" + " ".join(map(sx, want)) + ")"
+            elif o_erase(o_once(dict(r_subst), cexp)) != o_erase(o_once(one, unq)):
+                bad = "the returned substitution (applied once, as callers do) does not make the expected type fit the instantiated function type"
+            elif any(v in fresh for _, u_ in r_subst for v in o_vars(u_)):
+                bad = "the returned substitution mentions the callee's internal inference variables"
+        if bad:
+            ctx.violation("input:" + line, f"{bad}: check_type_against(act={sx(cact)}, exp={sx(cexp)}) = {real}",
+                          {"line": line, "real": real, "oracle": verdict, "model": m_,
+                           "cta": {"exp": cexp, "act": cact, "kinds": kinds}})
+        if real != m_:
+            ctx.broke(f"correspondence Model/Unify.lean checkAgainst vs check_type_against on `{line}` (real={real} model={m_})")
+
+    # ---- whole programs from the corpus (generic calls end to end)
+    import feed
+    for fn, c in _corpus_other("program"):
+        m = feed.load(c["program"])
+        try:
+            out = feed.check_outcome(getattr(m, c.get("entry", "main")))
+        finally:
+            feed.unload(m)
+        got = out[0] if out[0] != "user" else "user:" + feed.err_class(out[1])
+        ctx.count("program:" + c["id"], nontrivial=True, kind="program:" + got)
+        if got != c["expect"]:
+            ctx.violation("program:" + c["id"], f"generic call program `{c['id']}`: checker outcome {got}, expected {c['expect']}"
+                          + (f" ({type(out[1]).__name__})" if out[1] is not None else ""),
+                          {"program": c["program"], "got": got, "expect": c["expect"]})
 
     for (kind, line, real, orc), m_ in zip(aux, model_a):
         ctx.count(line, nontrivial=False, kind=kind)
